@@ -305,6 +305,56 @@ PROPS["C08"] = {
     "technique": "Lean 4 invariant proof over the occupancy-matrix model + differential correspondence with place_grid_items",
 }
 
+PROPS["C10"] = {
+    "modules": ["TaffyVerif.Props.C10"],
+    "theorems": [
+        "C10.flowLoop_is_flowTrace", "C10.block_layout_sets_are_flowTrace", "C10.trace_layout_size",
+        "C10.stack_order_no_overlap", "C10.stack_order_no_overlap_layout",
+        "C10.stretch_fit_width", "C10.stretch_fit_reported_width",
+        "C10.sibling_gap_is_collapsed_margin", "C10.collapsed_margin_is_max_plus_min",
+        "C10.sibling_gap_through_empty_boxes", "C10.collapse_two_margins", "C10.sibling_gap_two_margins",
+        "C10.block_collapse_sound", "C10.leaf_collapse_sound",
+    ],
+    "harness": "C10", "driver": "C10", "monitor": True,
+    "rule": "block containers with 1-5 children (empty boxes, leaves with Fixed/Wrap measure contexts, nested block / flex / grid "
+            "subtrees, display:none and absolutely positioned children; margins from {-20,-8,-5,0,2.5,5,10,20,auto,+-12.5%,25%}, "
+            "fixed / percentage / content heights, percentage and fixed padding/border, overflow, text-align, relative insets, "
+            "tables, aspect ratio, content-box), laid out through TaffyTree as the root or one level down in a block / flex / grid "
+            "parent under generated available space. Every cache-missing invocation of compute_block_layout on the container is "
+            "one request: its LayoutInput, all child queries it made (input and output, in order; recorded by the verif_trace hook), "
+            "the layouts it set and its LayoutOutput. The model must make the same queries in the same order and produce the same "
+            "output and layouts bit for bit (-0.0 = +0.0). Fixed cases first: the witnesses of the three repaired defects "
+            "(db358c3, a404d9d, 0961b7f) and all sign combinations with empty boxes in between. "
+            "Non-trivial = the invocation set at least two child layouts; distinct = distinct request/answer transcripts.",
+    "trusted_base": [
+        "model of src/compute/block.rs is hand-written (Model/Block.lean, all of compute_block_layout / compute_inner including the "
+        "absolute and hidden passes); tied to the code by bit-exact comparison of every recorded invocation, with the child answers "
+        "replayed from the implementation's own trace (children are arbitrary real subtrees)",
+        "the cfg(taffy_verif) trace hook (src/verif_trace.rs + 4 add-only call sites in compute_cached_layout, "
+        "TaffyView::compute_child_layout and TaffyView::set_unrounded_layout) records faithfully",
+        "theorems are stated at Rat; the same definitions run at Float32 in the tie; no theorem relates f32 rounding to Rat",
+    ],
+    "assumptions": [
+        "children are universally quantified as oracles (any answers); properties of the children's own algorithms are only "
+        "used as the named hypothesis CollapseSound, which is proved for the block algorithm itself and for leaf.rs's flag expression",
+        "leaf.rs is represented only by its collapse-through flag expression (leafCollapseFlag); flex and grid never set the flag",
+        "calc() lengths are not modelled (TaffyTree resolves them to 0; never generated)",
+    ],
+    "level_text": "For every block container, every list of child styles and every possible answer of the children (any oracle): "
+                  "running the in-flow loop program is its pure unfolding flowTrace (flowLoop_is_flowTrace); adjacent in-flow children "
+                  "with non-negative adjoining margins that are collapse-sound satisfy y_b >= y_a + h_a (stack_order_no_overlap); an "
+                  "auto-width child without min/max width, aspect ratio and auto margins is asked to be exactly content-box width minus "
+                  "its horizontal margins wide and, honouring that, fills the content box (stretch_fit_width, stretch_fit_reported_width); "
+                  "the gap between two siblings that are not collapsed through equals most-positive + most-negative over all adjoining "
+                  "margins, also through any number of collapsed-through boxes in between (sibling_gap_is_collapsed_margin, "
+                  "sibling_gap_through_empty_boxes), which for two plain margins is max / min / sum by sign (sibling_gap_two_margins); the "
+                  "block algorithm and the leaf flag are collapse-sound for every input (block_collapse_sound, leaf_collapse_sound).",
+    "level_note": "Trusted: Lean kernel; hand-written model of block.rs validated by the correspondence run (Float32, bit-exact, query "
+                  "order included); the trace hook; Lean Float32 = IEEE binary32. Axioms: propext, Classical.choice, Quot.sound.",
+    "technique": "Lean 4 proofs over a free-monad model of block.rs (children as arbitrary oracles) + differential correspondence with "
+                 "trace replay against TaffyTree + property monitor on the implementation's layouts",
+}
+
 HOOK_COMMITS = [
     "5207efe",
     "79decb2",
@@ -312,5 +362,5 @@ HOOK_COMMITS = [
 
 _pending = "check not built yet in this revision of /verif (planned, see DESIGN.md §8)"
 NOT_APPLICABLE = {p: _pending for p in
-                  ["C01", "C04", "C05", "C06", "C07", "C09", "C10", "C11", "C12", "C16", "C17", "C19"]}
+                  ["C01", "C04", "C05", "C06", "C07", "C09", "C11", "C12", "C16", "C17", "C19"]}
 
